@@ -5,7 +5,7 @@
    that description from the current Go source on every run.
    [fj_check] decides that no two goroutines conflict; the theorems (ForkJoinFacts) show that a
    checked fan-out has no data race and computes the same memory under EVERY interleaving. *)
-From Coq Require Import List String Bool Arith.
+From Coq Require Import List String Bool Arith ZArith.
 Import ListNotations.
 
 Definition path := list string.          (* a.b.c *)
@@ -119,3 +119,12 @@ Definition has_race (progs : list (list op)) : Prop :=
     (exists p, nth_error progs i = Some p /\ In a (map acc_of p)) /\
     (exists q, nth_error progs j = Some q /\ In b (map acc_of q)) /\
     same_cell_conflict a b = true.
+
+(* ---- the join.  What is Added to the WaitGroup before the Wait, and how often each goroutine calls Done (the translator
+   establishes the number per goroutine over all its paths).  The counter after goroutine i has made k_i of its d_i calls is
+   added - sum k; Wait returns when it is 0, and Done panics when it would go below 0. *)
+Definition wg_counter (added : nat) (ds : list nat) : Z := (Z.of_nat added - Z.of_nat (list_sum ds))%Z.
+Definition wg_never_negative (added : nat) (ds : list nat) : Prop :=
+  forall ks, Forall2 le ks ds -> (0 <= Z.of_nat added - Z.of_nat (list_sum ks))%Z.
+Definition join_ok (added : nat) (ds : list nat) : bool :=
+  Nat.eqb added (List.length ds) && forallb (Nat.eqb 1) ds.
